@@ -165,13 +165,12 @@ def hmc(ctx, A):
     # uniforms
     oku = False
     foundu = 'no uniform draw loop'
-    if len(unis) == 1 and len(unis[0].loops) == 1:
-        ls = E.loop_by_uid(ev, unis[0].loops[0])
-        seqs = [seq for seq, el in collected(ls) if el is unis[0].res]
-        foundu = 'loop n=%s, %d collecting place(s)' % (show(ls.n), len(seqs))
-        if len(seqs) == 1 and any(ls.n is n_ for n_ in nch) and not ls.exits:
+    dv = E.draw_vector(ev, 'StandardUniform', within=final)
+    if dv is not None:
+        foundu = '%s form, n=%s' % (dv['form'], show(dv['n']))
+        if any(dv['n'] is n_ for n_ in nch) and dv['site'].gen_root == 'self.rng':
             for td in tds:
-                if td[2][0] is seqs[0] and any(td[2][1] is T.app('array', n_) for n_ in nch):
+                if strip_eff(td[2][0]) is strip_eff(dv['seq']) and any(td[2][1] is T.app('array', n_) for n_ in nch):
                     oku = True
     ctx.check('C08.R8.5.uniform', anchor, 'uniform', oku, expected='n_chains StandardUniform draws from self.rng collected in order into the [n_chains] acceptance tensor', found=foundu, sp=b['sp'],
               why='each chain needs its own acceptance variate')
